@@ -11,8 +11,20 @@ Section Plain.
   (* a string no phase of the evaluator treats specially *)
   Definition plain_str (s : string) : Prop :=
     has_prefix "$merge:" s = false /\ has_prefix "$replace:" s = false /\
-    is_interp s = false /\ is_var_string s = false /\
-    validate_string o s = None /\ unescape s = s.
+    is_interp s = false /\ is_var_string s = false.
+
+  (* no doubled dollar: finalisation leaves the string alone *)
+  Fixpoint noesc (v : value) : Prop :=
+    match v with
+    | VStr s => unescape s = s
+    | VList l => (fix go (l : list value) := match l with [] => True | x :: r => noesc x /\ go r end) l
+    | VMap m => (fix go (m : emap) := match m with [] => True | (k, x) :: r => unescape k = k /\ noesc x /\ go r end) m
+    | _ => True
+    end.
+  Fixpoint noesc_list (l : list value) : Prop := match l with [] => True | x :: r => noesc x /\ noesc_list r end.
+  Fixpoint noesc_map (m : emap) : Prop := match m with [] => True | (k, x) :: r => unescape k = k /\ noesc x /\ noesc_map r end.
+  Lemma noesc_VList l : noesc (VList l) = noesc_list l. Proof. reflexivity. Qed.
+  Lemma noesc_VMap m : noesc (VMap m) = noesc_map m. Proof. reflexivity. Qed.
 
   Definition directive_keys : list string :=
     ["$merge"; "$replace"; "$repeat"; "$encode"; "$decode"; "$value"; "$output"].
@@ -244,11 +256,8 @@ Section Plain.
   Qed.
 
   (* ---- process2 ---- *)
-  Lemma p2_string_plain fuel ec s : plain_str s -> p2_string o [] 0 fuel ec s = Ok (VStr s) /\ True.
-  Proof. intros (_ & _ & H3 & H4 & _). split; [|exact Logic.I]. destruct fuel; cbn [p2_string]; now rewrite H3, H4. Qed.
-
   Lemma p2_string_plain' S di fuel ec s : plain_str s -> p2_string o S di fuel ec s = Ok (VStr s).
-  Proof. intros (_ & _ & H3 & H4 & _). destruct fuel; cbn [p2_string]; now rewrite H3, H4. Qed.
+  Proof. intros (_ & _ & H3 & H4). destruct fuel; cbn [p2_string]; now rewrite H3, H4. Qed.
 
   Lemma fold_insert_sorted (m : emap) : forall racc,
     ssorted m -> Forall (fun e => Forall (fun kv => String.ltb (fst e) (fst kv) = true) m) racc ->
@@ -338,5 +347,143 @@ Section Plain.
         - eapply Forall_impl; [|exact Hinv]. intros e He. now inversion He.
         - constructor; [exact Hlt|constructor]. }
       rewrite (FL m [] IH Hp Hn) by (assumption || lia || constructor). reflexivity.
+  Qed.
+
+  (* ---- output selection, hiding, validation, finalisation ---- *)
+  Lemma has_map_bool_plain m b : plain_map m -> has_map_bool m "$output" b = false.
+  Proof. intro H. unfold has_map_bool. now rewrite (plain_map_no_directive m "$output" H) by (cbn; tauto). Qed.
+
+  Lemma has_list_map_bool_plain l b : plain_list l -> has_list_map_bool l "$output" b = false.
+  Proof.
+    unfold has_list_map_bool. induction l as [|x r IH]; intro H; [reflexivity|]. cbn [plain_list] in H. destruct H as [Hx Hr].
+    cbn [existsb]. rewrite (IH Hr), orb_false_r. destruct x; try reflexivity.
+    apply plain_VMap in Hx as [_ Hx]. now apply has_map_bool_plain.
+  Qed.
+
+  Lemma find_outputs_plain v : plain v -> find_outputs v = Ok (v, []).
+  Proof.
+    induction v as [| | |g|s|l IH|m IH] using value_ind'; intro Hp; try reflexivity.
+    - apply plain_VList in Hp. cbn [find_outputs]. rewrite (has_list_map_bool_plain l true Hp).
+      match goal with |- bind (?f l) _ = _ => assert (E : f l = Ok (l, [])) end.
+      { induction IH as [|x r Hx _ IHr]; [reflexivity|]. cbn [plain_list] in Hp. destruct Hp as [Hpx Hpr].
+        assert (Hsel : match x with VMap xm => if has_map_bool xm "$output" true then Some (match remove "$output" xm with [] => true | _ => false end) else None | _ => None end = None).
+        { destruct x; try reflexivity. apply plain_VMap in Hpx as [_ Hpx']. now rewrite (has_map_bool_plain _ true Hpx'). }
+        match goal with |- ?L = _ => let L' := eval cbv beta iota zeta fix in L in change L with L' end.
+        rewrite Hsel. rewrite (Hx Hpx). cbn [bind]. rewrite (IHr Hpr). reflexivity. }
+      rewrite E. reflexivity.
+    - apply plain_VMap in Hp as [_ Hp]. cbn [find_outputs]. rewrite (has_map_bool_plain m true Hp).
+      match goal with |- bind (?f m) _ = _ => assert (E : f m = Ok (m, [])) end.
+      { induction IH as [|[k x] r Hx _ IHr]; [reflexivity|]. cbn [snd] in Hx. cbn [plain_map] in Hp. destruct Hp as (_ & Hpx & Hpr).
+        match goal with |- ?L = _ => let L' := eval cbv beta iota zeta fix in L in change L with L' end.
+        rewrite (IHr Hpr). cbn [andb]. rewrite (Hx Hpx). reflexivity. }
+      rewrite E. reflexivity.
+  Qed.
+
+  Lemma filter_output_plain v : plain v -> nonull v -> v <> VNull -> filter_output v = Ok (Some v).
+  Proof.
+    induction v as [| | |g|s|l IH|m IH] using value_ind'; intros Hp Hn Hnn; try reflexivity; try congruence.
+    - apply plain_VList in Hp. rewrite nonull_VList in Hn. cbn [filter_output]. rewrite (has_list_map_bool_plain l false Hp). clear Hnn.
+      match goal with |- bind (?f l) _ = _ => assert (E : f l = Ok l) end.
+      { induction IH as [|x r Hx _ IHr]; [reflexivity|]. cbn [plain_list] in Hp. destruct Hp as [Hpx Hpr].
+        cbn [nonull_list] in Hn. destruct Hn as (Hxn & Hnx & Hnr).
+        match goal with |- ?L = _ => let L' := eval cbv beta iota zeta fix in L in change L with L' end.
+        rewrite (Hx Hpx Hnx Hxn). cbn [bind]. rewrite (IHr Hpr Hnr). reflexivity. }
+      rewrite E. reflexivity.
+    - apply plain_VMap in Hp as [_ Hp]. rewrite nonull_VMap in Hn. cbn [filter_output]. rewrite (has_map_bool_plain m false Hp). clear Hnn.
+      match goal with |- bind (?f m) _ = _ => assert (E : f m = Ok m) end.
+      { induction IH as [|[k x] r Hx _ IHr]; [reflexivity|]. cbn [snd] in Hx. cbn [plain_map] in Hp. destruct Hp as (_ & Hpx & Hpr).
+        cbn [nonull_map] in Hn. destruct Hn as (Hxn & Hnx & Hnr).
+        match goal with |- ?L = _ => let L' := eval cbv beta iota zeta fix in L in change L with L' end.
+        rewrite (Hx Hpx Hnx Hxn). cbn [bind]. rewrite (IHr Hpr Hnr). reflexivity. }
+      rewrite E. reflexivity.
+  Qed.
+
+  Lemma finalize_plain v : plain v -> noesc v -> finalize v = v.
+  Proof.
+    induction v as [| | |g|s|l IH|m IH] using value_ind'; intros Hp Hne; try reflexivity.
+    - cbn [finalize]. cbn in Hne. now rewrite Hne.
+    - apply plain_VList in Hp. rewrite noesc_VList in Hne. cbn [finalize]. f_equal.
+      induction IH as [|x r Hx _ IHr]; [reflexivity|]. cbn [plain_list] in Hp. destruct Hp as [Hpx Hpr].
+      cbn [noesc_list] in Hne. destruct Hne as [Hnx Hnr].
+      rewrite (Hx Hpx Hnx). f_equal. exact (IHr Hpr Hnr).
+    - apply plain_VMap in Hp as [Hs Hp]. rewrite noesc_VMap in Hne. cbn [finalize]. f_equal.
+      match goal with |- ?f m [] = _ => assert (E : forall m' acc, Forall (fun kv => plain (snd kv) -> noesc (snd kv) -> finalize (snd kv) = snd kv) m' -> plain_map m' -> noesc_map m' ->
+                                             f m' acc = fold_left (fun a kv => insert (fst kv) (snd kv) a) m' acc) end.
+      { induction m' as [|[k x] r IHr]; intros acc Hall Hpm Hnm; [reflexivity|]. inversion Hall as [|? ? Hx Hr]; subst. cbn [snd] in Hx.
+        cbn [plain_map] in Hpm. destruct Hpm as (Hk & Hpx & Hpr). cbn [noesc_map] in Hnm. destruct Hnm as (Huk & Hnx & Hnr).
+        match goal with |- ?L = _ => let L' := eval cbv beta iota zeta fix in L in change L with L' end.
+        rewrite Huk, (Hx Hpx Hnx). cbn [fold_left fst snd]. now apply IHr. }
+      rewrite (E m [] IH Hp Hne). now rewrite (fold_insert_sorted m [] Hs) by constructor.
+  Qed.
+
+  Lemma outputs_of_plain v : plain v -> nonull v -> v <> VNull ->
+    outputs_of o v = match validate_go o v with None => Ok [finalize v] | Some e => Err e end.
+  Proof.
+    intros Hp Hn Hnn. unfold outputs_of. rewrite (find_outputs_plain v Hp). cbn [bind map_res].
+    rewrite (filter_output_plain v Hp Hn Hnn). cbn [bind]. unfold validate. destruct (validate_go o v); reflexivity.
+  Qed.
+
+  Lemma height_dn v : height (dn v) <= height v.
+  Proof.
+    induction v as [| | |g|s|l IH|m IH] using value_ind'; try (cbn; lia).
+    - rewrite dn_VList, !height_VList. apply le_n_S, le_n_S.
+      induction IH as [|x r Hx _ IHr]; [cbn; lia|].
+      destruct (value_eq_null x) as [->|Hn]; [cbn [dn_list height_list]; lia|].
+      assert (E : dn_list (x :: r) = dn x :: dn_list r) by (destruct x; try reflexivity; congruence).
+      rewrite E. cbn [height_list]. lia.
+    - rewrite dn_VMap, !height_VMap. apply le_n_S, le_n_S.
+      induction IH as [|[k x] r Hx _ IHr]; [cbn; lia|]. cbn [snd] in Hx.
+      destruct (value_eq_null x) as [->|Hn]; [cbn [dn_map height_map]; lia|].
+      assert (E : dn_map ((k, x) :: r) = (k, dn x) :: dn_map r) by (destruct x; try reflexivity; congruence).
+      rewrite E. cbn [height_map]. lia.
+  Qed.
+
+  Lemma repeat_doc_plain w ec : plain w -> repeat_doc w ec = Ok (w, [(w, ec)], false).
+  Proof.
+    destruct w as [| | | | |l|m]; intro Hp; try reflexivity.
+    - apply plain_VList in Hp. cbn [repeat_doc]. rewrite (pop_list_map_value_plain l "$repeat") by (cbn; tauto || assumption). reflexivity.
+    - apply plain_VMap in Hp as [_ Hp]. cbn [repeat_doc]. now rewrite (plain_map_no_directive m "$repeat" Hp) by (cbn; tauto).
+  Qed.
+
+  Lemma dn_noesc v : noesc v -> noesc (dn v).
+  Proof.
+    induction v as [| | |g|s|l IH|m IH] using value_ind'; try exact id.
+    - rewrite dn_VList, !noesc_VList. induction IH as [|x r Hx _ IHr]; [exact id|]. cbn [noesc_list]. intros [Hnx Hnr].
+      destruct (value_eq_null x) as [->|Hn]; [now apply IHr|].
+      assert (E : dn_list (x :: r) = dn x :: dn_list r) by (destruct x; try reflexivity; congruence).
+      rewrite E. cbn [noesc_list]. auto.
+    - rewrite dn_VMap, !noesc_VMap. induction IH as [|[k x] r Hx _ IHr]; [exact id|]. cbn [snd] in Hx. cbn [noesc_map]. intros (Hk & Hnx & Hnr).
+      destruct (value_eq_null x) as [->|Hn]; [now apply IHr|].
+      assert (E : dn_map ((k, x) :: r) = (k, dn x) :: dn_map r) by (destruct x; try reflexivity; congruence).
+      rewrite E. cbn [noesc_map]. auto.
+  Qed.
+
+  (* A document in which no string is recognised by the evaluation phases (references, $repeat, $encode,
+     $decode, $value, interpolation, $env, $output) evaluates to: nulls dropped, then validated (this is where
+     $required and stray $directives are refused), then $$ unescaped. A null document produces no output. *)
+  Theorem eval_inert v : plain v -> height v <= depth_limit ->
+    eval_docs o [v] = match v with
+                      | VNull => Ok []
+                      | _ => match validate_go o (dn v) with None => Ok [finalize (dn v)] | Some e => Err e end
+                      end.
+  Proof.
+    intros Hp Hh. unfold eval_docs. cbn [List.length eval_docs_from]. unfold process_doc.
+    change (nth_doc [v] 0) with v. rewrite (p1_plain 0 v depth_limit [v] (Some []) Hp Hh). cbn [bind].
+    rewrite (repeat_doc_plain (dn v) (env_ctx o) (dn_plain v Hp)). cbn [bind map_res fst snd set_nth].
+    rewrite (p2_plain [dn v] 0 (dn v) depth_limit (env_ctx o) (dn_plain v Hp) (dn_nonull v))
+      by (pose proof (height_dn v); lia).
+    cbn [bind map_res].
+    destruct (value_eq_null v) as [->|Hn].
+    - reflexivity.
+    - rewrite (outputs_of_plain (dn v) (dn_plain v Hp) (dn_nonull v) (dn_nonnull v Hn)).
+      destruct (validate_go o (dn v)); cbn [bind concat app]; destruct v; try reflexivity; congruence.
+  Qed.
+
+  (* bkl is the identity on plain configuration: no directive, nothing validation refuses, no doubled dollar *)
+  Theorem eval_plain v : plain v -> validate_go o (dn v) = None -> noesc v -> height v <= depth_limit ->
+    eval_docs o [v] = Ok (match v with VNull => [] | _ => [dn v] end).
+  Proof.
+    intros Hp Hv Hne Hh. rewrite (eval_inert v Hp Hh), Hv.
+    rewrite (finalize_plain (dn v) (dn_plain v Hp) (dn_noesc v Hne)). destruct v; reflexivity.
   Qed.
 End Plain.
